@@ -279,12 +279,12 @@ theorem sim_tail (B : BusOps β) {g : Regs} {s s' : St β} (h : Sim g s) (o1 o2 
   obtain ⟨a2, u2⟩ := sim_add_cycles B a1 c _ hc h2
   exact ⟨a2, u1.trans u2⟩
 
-/-- a template `body ; add r13, n ; add r15, c` whose body takes `g` to `g1` takes `g` to `g1` advanced by `n` with `c`
-more cycles -/
-theorem sim_body (B : BusOps β) (body : List (Nat × Instr)) (o1 o2 e n c : Nat) (g g1 : Regs)
+/-- a template `body ; add r13, n ; add r15, c` whose body takes `g` to `g1` (from initial states with property `P`, e.g.
+"the operand byte is b1") takes `g` to `g1` advanced by `n` with `c` more cycles -/
+theorem sim_bodyP (B : BusOps β) (P : St β → Prop) (body : List (Nat × Instr)) (o1 o2 e n c : Nat) (g g1 : Regs)
     (hok : codeOk (body ++ [(o1, addIp n), (o2, addCy c)]) e = true) (hst : straight body) (hn : n < 128) (hc : c < 128)
-    (hbody : ∀ st s1 : St β, Sim g st → execList B o1 body st = .ok s1 → Sim g1 s1 ∧ Untouched st s1)
-    (fuel : Nat) (st st' : St β) (hsim : Sim g st) (hpc : st.pc = offAt (body ++ [(o1, addIp n), (o2, addCy c)]) e 0)
+    (hbody : ∀ st s1 : St β, Sim g st → P st → execList B o1 body st = .ok s1 → Sim g1 s1 ∧ Untouched st s1)
+    (fuel : Nat) (st st' : St β) (hsim : Sim g st) (hP : P st) (hpc : st.pc = offAt (body ++ [(o1, addIp n), (o2, addCy c)]) e 0)
     (hrun : run B (body ++ [(o1, addIp n), (o2, addCy c)]) e fuel st = .ok st') :
     Sim { g1 with ip := g1.ip + n, cycles := g1.cycles + c } st' ∧ Untouched st st' := by
   have hst' : straight (body ++ [(o1, addIp n), (o2, addCy c)]) := by
@@ -296,8 +296,16 @@ theorem sim_body (B : BusOps β) (body : List (Nat × Instr)) (o1 o2 e n c : Nat
   have hex := run_execList B _ e hok hst' (body ++ [(o1, addIp n), (o2, addCy c)]).length 0 (Nat.zero_add _) fuel st st' hpc hrun
   rw [List.drop_zero] at hex
   obtain ⟨s1, hb, ht⟩ := execList_append B e _ body st st' hex
-  obtain ⟨hs1, hu1⟩ := hbody st s1 hsim hb
+  obtain ⟨hs1, hu1⟩ := hbody st s1 hsim hP hb
   obtain ⟨hs2, hu2⟩ := sim_tail B hs1 o1 o2 e n c hn hc ht
   exact ⟨hs2, hu1.trans hu2⟩
+
+theorem sim_body (B : BusOps β) (body : List (Nat × Instr)) (o1 o2 e n c : Nat) (g g1 : Regs)
+    (hok : codeOk (body ++ [(o1, addIp n), (o2, addCy c)]) e = true) (hst : straight body) (hn : n < 128) (hc : c < 128)
+    (hbody : ∀ st s1 : St β, Sim g st → execList B o1 body st = .ok s1 → Sim g1 s1 ∧ Untouched st s1)
+    (fuel : Nat) (st st' : St β) (hsim : Sim g st) (hpc : st.pc = offAt (body ++ [(o1, addIp n), (o2, addCy c)]) e 0)
+    (hrun : run B (body ++ [(o1, addIp n), (o2, addCy c)]) e fuel st = .ok st') :
+    Sim { g1 with ip := g1.ip + n, cycles := g1.cycles + c } st' ∧ Untouched st st' :=
+  sim_bodyP B (fun _ => True) body o1 o2 e n c g g1 hok hst hn hc (fun st s1 hs _ hex => hbody st s1 hs hex) fuel st st' hsim trivial hpc hrun
 
 end GbVerif.X86
